@@ -48,6 +48,11 @@ def _c_autoincrement_seqid(v):
     return AUTO + v["seqid"]
 
 
+def _c_autoincrement_seqid_strand(v):
+    # the counter base itself contains a colon ("chr1:+")
+    return AUTO + v["seqid"] + ":" + v["strand"]
+
+
 def _c_autoincrement_const(v):
     return AUTO + "feat"
 
@@ -73,6 +78,7 @@ CALLABLES = {
     "name_attr": _c_name_attr,
     "autoincrement_seqid": _c_autoincrement_seqid,
     "autoincrement_const": _c_autoincrement_const,
+    "autoincrement_seqid_strand": _c_autoincrement_seqid_strand,
     "composite": _c_composite,
     "mixed": _c_mixed,
 }
